@@ -55,6 +55,15 @@ class Raised(Exception):
     def __init__(self, kind, detail=''):
         self.kind = kind
         self.detail = detail
+        self.node = None
+
+
+class _Break(Exception):
+    pass
+
+
+class _Continue(Exception):
+    pass
 
 
 class _Return(Exception):
@@ -88,9 +97,12 @@ _BIN = {
 
 
 class FD:
-    def __init__(self, calls=None, methods=None, attr_hook=None, max_steps=20000):
+    def __init__(self, calls=None, methods=None, attr_hook=None, max_steps=20000, functions=None,
+                 resolver=None):
         self.calls = calls or {}        # dotted name -> callable(*abstract values)
         self.methods = methods or {}    # method name -> callable(receiver, *args)
+        self.functions = functions or {}  # dotted name -> FunctionDef interpreted inline
+        self.resolver = resolver        # dotted name -> constant (raises KeyError)
         self.attr_hook = attr_hook
         self.steps = 0
         self.max_steps = max_steps
@@ -103,7 +115,12 @@ class FD:
         m = getattr(self, 'e_' + type(e).__name__, None)
         if m is None:
             raise Inconclusive('fdeval: unsupported expression %s' % type(e).__name__)
-        return m(e, env)
+        try:
+            return m(e, env)
+        except Raised as r:
+            if getattr(r, 'node', None) is None:
+                r.node = e
+            raise
 
     def e_Constant(self, e, env):
         return e.value
@@ -113,6 +130,13 @@ class FD:
             return env[e.id]
         if e.id in ('True', 'False', 'None'):
             return {'True': True, 'False': False, 'None': None}[e.id]
+        if self.resolver is not None:
+            try:
+                return self.resolver(e.id)
+            except KeyError:
+                pass
+        if e.id in _BUILTIN_TYPES:
+            return _BUILTIN_TYPES[e.id]
         raise Inconclusive('fdeval: unbound name %s' % e.id)
 
     def e_Attribute(self, e, env):
@@ -120,10 +144,17 @@ class FD:
         d = dotted(e)
         if d is not None and d in env:
             return env[d]
+        if d is not None and self.resolver is not None and d.split('.')[0] not in env:
+            try:
+                return self.resolver(d)
+            except KeyError:
+                pass
         base = self.eval(e.value, env)
         if isinstance(base, Obj):
             if e.attr in base.attrs:
                 return base.attrs[e.attr]
+            if base.attrs.get('__closed__'):
+                raise Raised('AttributeError', '%r object has no attribute %r' % (base._name, e.attr))
             raise Inconclusive('fdeval: %r has no modelled attribute %s' % (base, e.attr))
         if self.attr_hook is not None:
             return self.attr_hook(base, e.attr)
@@ -132,6 +163,21 @@ class FD:
         raise Inconclusive('fdeval: attribute %s of %r' % (e.attr, base))
 
     def e_JoinedStr(self, e, env):
+        parts = []
+        concrete = True
+        for v in e.values:
+            if isinstance(v, ast.Constant):
+                parts.append(str(v.value))
+            elif isinstance(v, ast.FormattedValue) and v.conversion == -1 and v.format_spec is None:
+                x = self.eval(v.value, env)
+                if isinstance(x, (str, int, float, bool)) or x is None:
+                    parts.append(str(x))
+                else:
+                    concrete = False
+            else:
+                concrete = False
+        if concrete:
+            return ''.join(parts)
         return Opaque('fstring', truth=True if any(isinstance(v, ast.Constant) and v.value
                                                    for v in e.values) else None)
 
@@ -305,6 +351,10 @@ class FD:
                 raise Raised('IndexError', repr(idx))
             except TypeError:
                 raise Raised('TypeError', repr(idx))
+        if isinstance(base, Obj):
+            if 'method:__getitem__' in base.attrs:
+                return base.attrs['method:__getitem__'](idx)
+            raise Raised('TypeError', "%r object is not subscriptable" % base._name)
         raise Inconclusive('fdeval: subscript of %r' % (base,))
 
     def e_Call(self, e, env):
@@ -316,6 +366,10 @@ class FD:
             args = [self.eval(a, env) for a in e.args]
             kwargs = {k.arg: self.eval(k.value, env) for k in e.keywords}
             return self.calls[name](*args, **kwargs)
+        if name in self.functions:
+            args = [self.eval(a, env) for a in e.args]
+            kwargs = {k.arg: self.eval(k.value, env) for k in e.keywords}
+            return self.call_function(self.functions[name], args, kwargs)
         if isinstance(e.func, ast.Name) and e.func.id in env and callable(env[e.func.id]):
             args = [self.eval(a, env) for a in e.args]
             return env[e.func.id](*args)
@@ -327,6 +381,25 @@ class FD:
             args = [self.eval(a, env) for a in e.args]
             return _BUILTINS[name](*args)
         raise Inconclusive('fdeval: call of %s' % (name or ast.unparse(e.func)))
+
+    def call_function(self, fn, args, kwargs=None, bound_self=None):
+        params = [a.arg for a in fn.args.args]
+        env = {}
+        if bound_self is not None:
+            env[params[0]] = bound_self
+            params = params[1:]
+        defaults = fn.args.defaults
+        for p, d in zip(params[len(params) - len(defaults):], defaults):
+            env[p] = self.eval(d, {})
+        for p, a in zip(params, args):
+            env[p] = a
+        for k, v in (kwargs or {}).items():
+            env[k] = v
+        for p in params:
+            if p not in env:
+                raise Inconclusive('fdeval: missing argument %s' % p)
+        r = self.run(fn.body, env)
+        return None if r is NO_RETURN else r
 
     def call_method(self, recv, attr, args):
         if attr in self.methods:
@@ -356,6 +429,20 @@ class FD:
                 raise Raised('ValueError', 'not in list')
         if isinstance(recv, (list, tuple)) and attr == 'count':
             return recv.count(args[0])
+        if isinstance(recv, list) and attr in ('append', 'extend', 'insert', 'clear'):
+            getattr(recv, attr)(*args)
+            return None
+        if isinstance(recv, list) and attr == 'pop':
+            try:
+                return recv.pop(*args)
+            except IndexError:
+                raise Raised('IndexError', 'pop from empty list')
+        if isinstance(recv, dict) and attr in ('items', 'keys', 'values'):
+            return list(getattr(recv, attr)())
+        if isinstance(recv, dict) and attr in ('update', 'setdefault', 'clear', 'pop'):
+            return getattr(recv, attr)(*args)
+        if isinstance(recv, Obj) and ('method:' + attr) in recv.attrs:
+            return recv.attrs['method:' + attr](*args)
         raise Inconclusive('fdeval: method %s on %r' % (attr, recv))
 
     # -- statements --------------------------------------------------------------------------
@@ -431,6 +518,27 @@ class FD:
                 raise Inconclusive('fdeval: unknown branch with diverging control flow')
             self.block(st.body if t else st.orelse, env)
             return
+        if isinstance(st, ast.For):
+            it = self.eval(st.iter, env)
+            if it is UNKNOWN or isinstance(it, (Opaque, Obj)) or it is ERR:
+                raise Inconclusive('fdeval: loop over a non-concrete iterable')
+            broke = False
+            for item in list(it):
+                self.assign(st.target, item, env)
+                try:
+                    self.block(st.body, env)
+                except _Break:
+                    broke = True
+                    break
+                except _Continue:
+                    continue
+            if not broke:
+                self.block(st.orelse, env)
+            return
+        if isinstance(st, ast.Break):
+            raise _Break()
+        if isinstance(st, ast.Continue):
+            raise _Continue()
         if isinstance(st, ast.Raise):
             from .astutil import dotted
             kind = 'Exception'
@@ -472,6 +580,10 @@ class FD:
                     self.assign(e, x, env)
         else:
             raise Inconclusive('fdeval: assignment target %s' % type(t).__name__)
+
+
+_BUILTIN_TYPES = {'int': int, 'float': float, 'str': str, 'bool': bool, 'list': list, 'tuple': tuple,
+                  'dict': dict, 'set': set}
 
 
 class _NoReturn:
